@@ -1,10 +1,10 @@
 SPECIFICATION Spec
 CONSTANTS
-  Abis = {"x64-pe", "ia32-pe", "arm64-elf", "mips32-elf"}
+  Abis = {"x64-elf"}
   MaxUses = 1
-  Cat = "full"
+  Cat = "core"
   MapNames = {"AB", "AB_BC"}
-  WithPatch = TRUE
+  WithPatch = FALSE
   Emit = TRUE
 INVARIANT Inv
 CHECK_DEADLOCK FALSE
